@@ -30,6 +30,8 @@ TOLERANCES = {"grid_states/shared_times/ys0": "bit-identical", "interior_interpo
 @st.composite
 def _case(draw, tier):
     spec, combo = draw(solve.spec_and_combo(dtypes=("float64", "float32")))
+    # a diffusion that returns one stored tensor on every call: the solver must treat what f and g return as read-only
+    spec["gstored"] = draw(st.sampled_from([None, None, None, True]))
     tset = draw(solve.time_setup(max_steps=24 if tier == "quick" else 64, dtypes=(spec["dtype"],)))
     if draw(st.sampled_from([False, False, False, True])):
         # times far from zero: |t| / dt is what decides how much precision time differences carry in the state's dtype
@@ -128,8 +130,23 @@ def run_case(case):
     # the grid actually used: the Brownian query log of the plain run over [t0, t1]; it must be the prescribed grid
     # ts[0] + k dt with the last step clipped (whether the implementation accumulates t_k + dt or multiplies k*dt is its
     # business: a few ulp of slack), contiguous and strictly increasing
-    _, rec0 = solve_with(torch.stack([grid[0], grid[-1]]))
+    gbuf_before = sde.gbuf.clone()
+    ys0, rec0 = solve_with(torch.stack([grid[0], grid[-1]]))
     log0 = [(a, b) for a, b, *_ in rec0.log]
+    if spec.get("gstored"):
+        checks += 1
+        if not torch.equal(sde.gbuf, gbuf_before):
+            return fail("sde_state_modified", f"sdeint overwrote the tensor returned by the SDE's g in place "
+                                              f"({solve.combo_label(combo)})")
+        twin = sdes.build_generic(dict(spec, gstored="clone"))
+        with torch.no_grad():
+            ys_twin, _ = solve.run(torchsde, twin, y0, torch.stack([grid[0], grid[-1]]), combo, dt,
+                                   bm=sdes.make_bm(torchsde, spec, t0f, t1f, case["entropy"], levy=combo["levy"]))
+        checks += 1
+        if not torch.equal(ys0, ys_twin):
+            return fail("aliasing_changes_solution", f"the solution depends on whether g returns a stored tensor or a fresh "
+                                                     f"copy of it ({solve.combo_label(combo)}): max diff "
+                                                     f"{float((ys0 - ys_twin).abs().max()):.3e}")
     teps = torch.finfo(tdtype).eps
     checks += 1
     ok = len(log0) == len(grid) - 1 and log0[0][0] == t0f and log0[-1][1] == t1f and \
